@@ -225,7 +225,7 @@ func slowTimings() p2pke.VerifTimings {
 }
 
 func runC05(r *ev.Run) {
-	r.Rule = "victim channel with a pure acceptance predicate {accept-only-K, reject-only-K, reject-all, by-fingerprint-bit}; peers: honest channels and the raw attacker with accepted / rejected / other keys; roles {victim initiates, victim responds, both at once} x {RespDone delivered, dropped, overtaken by data}; then, once bound, handshakes by a different key as initiator and as on-path responder to the victim's own rekey. Oracles: RemoteKey()/Send/WaitReady/Deliver/encryption-site hook never involve a key the predicate rejects nor, once bound, another key; the established session keeps working after a refused attempt. non-trivial = the rejected/foreign handshake reached the point where the victim processed its RespHello/InitDone/data; distinct = (predicate, role, fault, phase)"
+	r.Rule = "victim channel with a pure acceptance predicate {accept-only-K, reject-only-K, reject-all, by-fingerprint-bit}; peers: honest channels and the raw attacker with accepted / rejected / other keys; roles {victim initiates, victim responds, both at once} x {RespDone delivered, dropped, overtaken by data}; then, once bound, handshakes by a different key as initiator and as on-path responder to the victim's own rekey. Oracles: RemoteKey()/Send/WaitReady/Deliver/encryption-site hook never involve a key the predicate rejects nor, once bound, another key; the established session keeps working after a refused attempt. Swarm layer: on p2pkeswarm, after honest all-pairs traffic, Tell/Ask to identity X at node Y's transport address must fail and never reach Y. non-trivial = the rejected/foreign handshake reached the point where the victim processed its RespHello/InitDone/data; distinct = (predicate, role, fault, phase)"
 	verifhook.EnableSink(true)
 	defer verifhook.EnableSink(false)
 	okKey, badKey, otherOK := keyN(31), keyN(32), keyN(34)
@@ -275,6 +275,19 @@ func runC05(r *ev.Run) {
 					c05Bound(r, cg, caseID, pd, attack, fk, okKey, foreign)
 				}
 			}
+		}
+	}
+	// the same property one layer up: p2pkeswarm's predicate for a dialled address is "fingerprint == the identity in the
+	// address", and its channels are stored per transport address. After honest traffic has bound every channel, a Tell/Ask
+	// to identity X at node Y's transport address must be refused and must not reach Y.
+	for _, sf := range secureStacks(isThorough(r)) {
+		if sf.Name != "p2pke(mem)" && sf.Name != "p2pke(udp)" {
+			continue
+		}
+		idx++
+		caseID := "swarm-wrong-identity-" + sf.Name
+		if r.Mine(idx) && r.Want(caseID) {
+			c04HonestAs(r, sf, g.Fork(), caseID, "C05")
 		}
 	}
 }
